@@ -67,6 +67,15 @@ theorem root_pushVia (k : Nat) (i : Instr) (s : St) :
 theorem good_push_plain (s : St) (i : Instr) (h : i.setsLabel = none) : Good s (s.push i) :=
   good_of_same rfl (by rw [(root_push i s).1, setLabels_snoc_plain _ _ h])
 
+theorem good_fnReturn_aux {s s2 : St} (h : ESteps s s2) (q : St × Bool) (hq : q = (s2, q.2) ∨ ∃ r, q =
+    (if s2.cur.manualReturn then s2.push (.fnReturnWithLabel r) else s2.push (.fnReturn r), true))
+    (ge : ∀ {a b : St}, ESteps a b → Good a b) : Good s q.1 := by
+  rcases hq with hq | ⟨r, hq⟩
+  · rw [hq]; exact ge h
+  · rw [hq]; dsimp only; split
+    · exact (ge h).trans (good_push_plain _ _ rfl)
+    · exact (ge h).trans (good_push_plain _ _ rfl)
+
 theorem good_pushVia_plain (s : St) (k : Nat) (i : Instr) (h : i.setsLabel = none) : Good s (s.pushVia k i) :=
   good_of_same (root_pushVia k i s).2 (by rw [(root_pushVia k i s).1, setLabels_snoc_plain _ _ h])
 
@@ -90,6 +99,11 @@ theorem good_esteps {s s' : St} (st : ESteps s s') : Good s s' := by
   induction st with
   | refl => exact Good.refl _
   | tail _ st ih => exact ih.trans (good_estep st)
+
+theorem good_fnReturn (g : Globals) (resTy : Ty) (e : Expr) (rc : Bool) (s : St) : Good s (fnReturn g resTy e rc s).1 := by
+  obtain ⟨s2, h, hq | ⟨r, hq⟩⟩ := fnReturn_split g resTy e rc s
+  · exact good_fnReturn_aux h _ (Or.inl (by rw [hq])) good_esteps
+  · exact good_fnReturn_aux h _ (Or.inr ⟨r, hq⟩) good_esteps
 
 /-- what a label probe does to the root block -/
 theorem fresh_spec (s : St) (stem : Name) :
@@ -472,13 +486,13 @@ theorem good_bodyStmts (g : Globals) (resTy : Ty) : ∀ (l : List BodyStmt) (rc 
     | loop b => exact (h0.trans (good_loopWrap _ (good_loopBody g b) s0)).trans (good_bodyStmts g resTy tl rc _)
     | expr e =>
       dsimp only
-      have h1 := h0.trans (good_esteps (esteps_fnReturn g resTy e rc s0))
+      have h1 := h0.trans (good_fnReturn g resTy e rc s0)
       generalize fnReturn g resTy e rc s0 = q at h1
       obtain ⟨s1, r⟩ := q
       exact h1.trans (good_bodyStmts g resTy tl r s1)
     | ret e =>
       dsimp only
-      have h1 := h0.trans (good_esteps (esteps_fnReturn g resTy e rc s0))
+      have h1 := h0.trans (good_fnReturn g resTy e rc s0)
       generalize fnReturn g resTy e rc s0 = q at h1
       obtain ⟨s1, r⟩ := q
       exact h1.trans (good_bodyStmts g resTy tl r s1)
